@@ -247,9 +247,21 @@ def handle (stream : String) (args : List String) : String :=
     match ch.toNat?, unhex data with
     | some ch, some d => hex (channelData ch d)
     | _, _ => "bad-args"
-  | "tcpframe", [data] =>
+  | "tcpwire", [data] =>
     match unhex data with
-    | some d => hex (tcpFrame d)
+    | some d => hex (tcpWire d)
+    | none => "bad-args"
+  | "tcpsplit", [data] =>
+    match unhex data with
+    | some d =>
+      let rec go (fuel : Nat) (st : Bytes) (acc : List String) : List String :=
+        match fuel with
+        | 0 => acc.reverse
+        | fuel + 1 => if st.isEmpty then acc.reverse else
+          match tcpNext st with
+          | some (m, rest) => go fuel rest (hex m :: acc)
+          | none => ("incomplete" :: acc).reverse
+      ",".intercalate (go (d.length + 1) d [])
     | none => "bad-args"
   | "nextch", [n] =>
     match n.toNat? with
